@@ -351,4 +351,34 @@ def Heap.writeAnnot (h : Heap) (o : Obj) (a : Annot) : Heap := { h with annots :
 /-- The copy path of the code as it is (checked against `Gen/C13.lean` in `Props/C13.lean`). -/
 def copyKinds : CopyKind × CopyKind × CopyKind := (.copyCall, .copyCall, .plain)
 
+/-! ## Accessors: what editing the object handed out by a property does to the owner -/
+
+/-- An accessor either hands out a copy / an immutable object, or the internal object itself. -/
+inductive AccessKind where
+  | copy | frozen | plain
+  deriving DecidableEq, Repr
+
+/-- `feature.qual[...] = q` on the dictionary handed out by `Feature.qual`. -/
+def mutQualThrough (k : AccessKind) (q : Nat) (f : Feature) : Feature :=
+  match k with
+  | .plain => { f with qual := q }
+  | _ => f
+
+/-- `annotation.get_features().clear()`. -/
+def clearThrough (k : AccessKind) (a : Annot) : Annot :=
+  match k with
+  | .plain => []
+  | _ => a
+
+/-- `feature.locs.clear()` (refused on a frozenset, without effect on a copy). -/
+def clearLocsThrough (k : AccessKind) (f : Feature) : Feature :=
+  match k with
+  | .plain => { f with locs := [] }
+  | _ => f
+
+/-- The accessors of the code as it is (checked against `Gen/C13.lean` in `Props/C13.lean`). -/
+def qualAccess : AccessKind := .copy
+def featuresAccess : AccessKind := .copy
+def locsAccess : AccessKind := .frozen
+
 end BiotiteModel.C13
